@@ -7,12 +7,16 @@
   the specification `C04/TailNest.lean` (the syntactic class the property names) and the
   definitions of the real `defs.jq` files as generated into `Gen/C04Defs.lean` on every run.
   The models are tied to the code by `bin/check C04`: whole compiled term tables of the real
-  compiler vs `compileMain` on generated nests, traces of the real `Stack::next` vs `Stack.turn`.
+  compiler vs `compileMain` on generated nests; traces of the real stack.rs / fold.rs /
+  rc_lazy_list.rs (compiled into the harness from the repo's working tree) vs `Stack.turn`,
+  `Stack.hintZero` (stacks of stacks), `Fold.turn`, `LL.iterDrop` on seeded scripted iterators.
+  `C04/Run.lean` (`MayThrow`) is a may-semantics of how filter.rs hands `TailCall` items on.
   What no model exhibits (native stack bytes, allocator) is measured by the same check.
 -/
 import JaqVerif.Lemmas.C04Stack
 import JaqVerif.Lemmas.C04TailNest
 import JaqVerif.Lemmas.C04Run
+import JaqVerif.Lemmas.C04Nest
 import JaqVerif.Gen.C04Defs
 
 namespace Jaq.C04
@@ -201,6 +205,74 @@ theorem stack_next_reach {I X : Type} (S : Iter I X) (f : X → Flow X I) (n : N
 /-- instance of the hypotheses: a loop of 3 iterations with one output each -/
 example : (Script.trace [⟨true, [.out 1, .tail 1]⟩, ⟨true, [.out 2, .tail 2]⟩, ⟨true, [.out 3]⟩] 5)
     = "n0>o1#1 n0n1>o2#1 n1n2>o3#0 >end#0" := by decide
+
+/-! ## Round 2: the repaired `Stack::size_hint`, stacks of stacks, the adapters of `,` -/
+
+/-- **`trampoline_bounded_tailLast`** (strengthens `trampoline_bounded`: the assumptions `HintExact` and
+`Linear` are replaced by the single weaker one they imply, see `tailLast_of_exact_linear`): it is
+enough that the residual of an iterator that has just yielded a *tail call* reports
+`size_hint() == (0, Some(0))`, on a class `P` of iterators closed under `next` and continuations.
+Nothing is asked about the hints after ordinary outputs, nor of exhausted iterators. -/
+theorem trampoline_bounded_tailLast {I X : Type} (P : I → Prop) (S : Iter I X) (f : X → Flow X I)
+    (hres : ∀ it x it', S.next it = some (x, it') → P it → P it') (hcont : ∀ x c, f x = .cont c → P c)
+    (ht : TailLastOn P S f) (a b : List I) (hPa : ∀ it ∈ a, P it) (ha : a.length ≤ 1)
+    (h : Stack.Reach S f a b) : b.length ≤ 1 :=
+  (reach_tailLast P S f hres hcont ht a b hPa ha h).1
+
+/-- **`trampoline_bounded_comma_shapes`** (`trampoline_bounded` *without* any assumption on size hints,
+for the iterators jaq builds in the tail positions of the property): the iterators are terms of
+`Once`/`Chain`/`lazy` (`Ad`, modelled after the standard library's `next`/`size_hint`) in which tail
+calls stand only at the right end of every `,` (`A, (B, (…, throw))`); `|`, `as $x |`, `if` branches
+and `//` hand such an iterator on unchanged.  Whatever catch function takes (only) tail calls and
+continues with iterators of that shape: the `Stack` never holds more than one iterator, for any
+number of turns. -/
+theorem trampoline_bounded_comma_shapes (f : Script.Item → Flow Script.Item Ad)
+    (hf : ∀ x c, f x = .cont c → x.isTail = true ∧ c.TailShape)
+    (a b : List Ad) (hs : ∀ it ∈ a, it.TailShape) (ha : a.length ≤ 1) (h : Stack.Reach adIter f a b) :
+    b.length ≤ 1 ∧ ∀ it ∈ b, it.TailShape :=
+  reach_tailLast Ad.TailShape adIter f
+    (fun it x it' hn hp => (Ad.tailShape_next it x it' hp hn).1) (fun x c h => (hf x c h).2)
+    (fun it x it' c hp hn hfc => (Ad.tailShape_next it x it' hp hn).2 (hf x c hfc).1) a b hs ha h
+
+/-- the adapters never report `(0, Some(0))` while they still have an item: the trampoline (and
+`fold`) drop only exhausted iterators — no output is lost by the "do not grow the stack" test -/
+theorem adapters_hint_sound (a : Ad) (h : a.hintZero = true) : a.next = none := Ad.hint_sound a h
+
+/-- instance: `., (., throw)` — `def f: ., (., (step | f))` — has the shape; after the tail call nothing is kept -/
+example : (Ad.chainAB (.once (some (.out 0))) (.lazyU (.chainAB (.once (some (.out 1))) (.lazyU (.once (some (.tail 0))))))).TailShape := by
+  simp [Ad.TailShape, Ad.NoTail, Script.Item.isTail]
+
+/-- contrast (the compiler's *wide* class): a tail call on the left of `,` is followed by a pending
+generator — `Chain` does not report `(0, Some(0))`, the iterator legitimately stays on the stack
+(`trampoline_holds_only_pending`) -/
+example : ((Ad.chainAB (.once (some (.tail 0))) (.lazyU (.once (some (.out 1))))).next.map fun p => p.2.hintZero) = some false := rfl
+
+/-- **`mutual_trampoline_bounded`** (parent and child tail-calling each other, `def f: def g: … f … g …; g;`):
+the body of `f` is the `CatchOne g` call — a `Stack` (catch function `fi`) — and runs on the `Stack`
+of the `CatchOne f` call (catch function `fo`).  With the repaired `Stack::size_hint`
+(`Stack.hintZero`: `(0, Some(0))` iff the vector is empty; be431db) and tail calls that are followed by
+`(0, Some(0))` (`MutTailLast`), the outer stack holds at most one inner stack and every inner stack at
+most one iterator — after any number of turns, i.e. for any number of rounds `f → g → f → …`. -/
+theorem mutual_trampoline_bounded {I X : Type} (S : Iter I X) (fi : X → Flow X I) (fo : X → Flow X (List I))
+    (hm : MutTailLast S fi fo) (hnew : ∀ x c, fo x = .cont c → c.length ≤ 1)
+    (a b : List (List I)) (ha : NestOk a) (h : Nest.Reach S fi fo Stack.hintZero a b) : NestOk b := by
+  induction h with
+  | refl => exact ha
+  | step _ ht ih => exact nest_turn_ok S fi fo hm hnew ih ht
+
+/-- the hypotheses of `mutual_trampoline_bounded` are satisfiable: one-shot iterators (`oneShot`) -/
+example : MutTailLast oneShot (fun _ => Flow.brk ()) (fun _ => Flow.cont [true]) := by
+  intro it x it' hn _
+  cases it <;> simp [oneShot] at hn ⊢
+  exact hn
+
+/-- **`mutual_unrepaired_grows`** (the finding be431db repaired, as a theorem about the code before it):
+if an inner `Stack` never reports `(0, Some(0))` — the default `size_hint` — then even for one-shot
+iterators with exact hints the outer stack holds `n` dead (empty) inner stacks after `n` rounds. -/
+theorem mutual_unrepaired_grows (n : Nat) :
+    Nest.Reach oneShot (fun _ => Flow.brk ()) (fun _ => Flow.cont [true]) (fun _ => false)
+      [[true]] ([true] :: List.replicate n []) :=
+  unrepaired_grows n
 
 /-! ## `fold` and the list drop -/
 
